@@ -86,11 +86,6 @@ Proof.
       match goal with |- context [step s ?o] => pose proof (Inv_next s m o (reg m) I) as HI end;
       destruct (step s _) as [s1 out]; destruct Hf as [[Hb _] Hq]; simpl fst in *; simpl snd;
       (split; [apply quiet_ok; exact Hq | apply HI; rewrite Hb; exact (inv_reg _ _ I)])).
-    - (* DiscoveryReply: no entity is announced as removed *)
-      cbn [mon]. unfold advance. rewrite Hw. rewrite reply_no_gone, drop_gone_nil.
-      pose proof (Inv_next s m (DiscoveryReply p m0) (reg m) I) as HI.
-      destruct (step s (DiscoveryReply p m0)) as [s1 out]. destruct Hf as [[Hb _] _]. simpl fst in *.
-      split; [reflexivity | apply HI; rewrite Hb; exact (inv_reg _ _ I)].
     - (* ListBinds *)
     cbn [mon]. unfold advance. rewrite Hw. cbn [step]. simpl fst. simpl snd.
     rewrite (inv_reg _ _ I).
@@ -101,6 +96,9 @@ Proof.
   - (* Connect *)
     cbn [mon]. unfold advance. rewrite Hw. split; [reflexivity|].
     apply (Inv_next s m); [exact I|]. rewrite (inv_reg _ _ I), drop_peer_abs, connect_binds by exact Hok. reflexivity.
+  - (* DiscoveryReply *)
+    cbn [mon]. unfold advance. rewrite Hw. split; [reflexivity|].
+    apply (Inv_next s m); [exact I|]. rewrite (inv_reg _ _ I), after_reply_abs, discovery_reply_binds by exact Hok. reflexivity.
   - (* DiscoveryNotify *)
     cbn [mon]. unfold advance. rewrite Hw. split; [reflexivity|].
     apply (Inv_next s m); [exact I|]. rewrite (inv_reg _ _ I), drop_gone_abs, gone_seen_eq, discovery_notify_binds by exact Hok. reflexivity.
